@@ -115,6 +115,10 @@ func genMixedTx(rng *rand.Rand, g *GenesisSpec) Op {
 		op.Val = pick(rng, "0", "10")
 	case k < 74: // creation tx
 		op.Init = pick(rng, "store", "logs", "clear", "sd", "revert")
+		if rng.IntN(5) == 0 {
+			// creations that succeed and leave no code: empty init code, a constructor that stops, logs, or self-destructs
+			op.Init, op.Data = "rawinit", pick(rng, "", "00", "60016000a0", "6000ff", "60006000f3")
+		}
 		op.Gas = pick(rng, "i+300000", "i+600000", "i+20000")
 		op.Val = pick(rng, "0", "0", "9", "999999999999999999999999999")
 		if rng.IntN(4) == 0 {
@@ -167,6 +171,15 @@ func genMixed(prop string) func(rng *rand.Rand, seed uint64, tier string) *Scrip
 		s.WallOffsetS = pick(rng, int64(0), 86400*365*30, -86400*365)
 		s.Node = NodeOpts{MinGasPrices: pick(rng, "", "", "1wei", "2000000000wei"), IAVLCache: pick(rng, 0, -1, 100)}
 		s.Ops = genMixedOps(rng, &s.Gen, 3+rng.IntN(8), 8)
+		if prop == "C06" {
+			// the other way an Ethereum message could reach execution: wrapped in Cosmos-lane shapes (nested in MsgExec,
+			// beside other messages, with odd envelopes), where no Ethereum-lane check would have looked at it
+			for i, n := 0, 1+rng.IntN(6); i < n; i++ {
+				op := Op{K: "lane", W: rng.IntN(s.Gen.Wallets), Mut: laneRecipes[rng.IntN(len(laneRecipes))], Ref: rng.IntN(8), Typ: rng.IntN(6), Via: pick(rng, "", "", "", "check")}
+				at := 1 + rng.IntN(len(s.Ops)-1)
+				s.Ops = append(s.Ops[:at], append([]Op{op}, s.Ops[at:]...)...)
+			}
+		}
 		return s
 	}
 }
